@@ -236,9 +236,35 @@ def _option_tables(ctx: Ctx, model) -> None:
         for x in walk_ordered(g.node):
             if isinstance(x, ast.IfExp) and norm(x.test) == f"{var} == 'auto'" and isinstance(x.body, ast.List):
                 auto = [e.value for e in x.body.elts if isinstance(e, ast.Constant)]
+        from ..elements import module_consts
+        mc = module_consts(ctx.repo, mod)
+
+        def table_keys(e: ast.AST):
+            """keys of a module-level dictionary referred to as T, T.keys(), list(T), list(T.keys()), sorted(T), tuple(T)"""
+            while isinstance(e, ast.Call) and isinstance(e.func, ast.Name) and e.func.id in ("list", "tuple", "sorted") and len(e.args) == 1:
+                e = e.args[0]
+            if isinstance(e, ast.Call) and isinstance(e.func, ast.Attribute) and e.func.attr == "keys":
+                e = e.func.value
+            if isinstance(e, ast.Name) and isinstance(mc.get(e.id), ast.Dict):
+                return [k.value for k in mc[e.id].keys if isinstance(k, ast.Constant)]
+            if isinstance(e, ast.Name) and isinstance(mc.get(e.id), (ast.List, ast.Tuple)):
+                return [k.value for k in mc[e.id].elts if isinstance(k, ast.Constant)]
+            return None
+        if auto is None:
+            for x in walk_ordered(g.node):
+                if isinstance(x, ast.IfExp) and norm(x.test) == f"{var} == 'auto'":
+                    auto = table_keys(x.body)
         if auto is None:
             raise AnalysisError(f"{gen}: the list expanded for '{var}=auto' was not found")
         handled, raises, first = _chain_values(d.node, var)
+        if not handled:
+            # table dispatch: `if var not in T: raise …` followed by a look-up T[var]
+            for x in walk_ordered(d.node):
+                if isinstance(x, ast.If) and isinstance(x.test, ast.Compare) and isinstance(x.test.ops[0], ast.NotIn) and norm(x.test.left) == var and always_exits(x.body):
+                    ks = table_keys(x.test.comparators[0])
+                    T_ = norm(x.test.comparators[0])
+                    if ks is not None and any(isinstance(y, ast.Subscript) and norm(y.value) == T_ and norm(y.slice) == var for y in walk_ordered(d.node)):
+                        handled, raises, first = set(ks), any(isinstance(b_, ast.Raise) for b_ in x.body), x
         n += 1
         ctx.instance("R18.2", f"{var}: auto list {auto} ⊆ handled {sorted(handled)}")
         missing = [v for v in auto if v not in handled]
